@@ -1,6 +1,7 @@
 package harness
 
 import (
+	"strings"
 	"flag"
 	"fmt"
 	"os"
@@ -86,4 +87,40 @@ func TestReplay(t *testing.T) {
 	} else {
 		fmt.Printf("not reproduced on this tree: property=%s signature=%s\n", rf.Property, rf.Signature)
 	}
+}
+
+var (
+	fOne    = flag.String("mcx.one", "", "debug: run one scenario of -mcx.prop by name and print its trace")
+	fPrefix = flag.String("mcx.prefix", "", "debug: comma separated choice prefix for -mcx.one")
+	fGrep   = flag.String("mcx.alts", "", "debug: print alternatives at each choice point")
+)
+
+func TestOne(t *testing.T) {
+	if *fOne == "" {
+		t.Skip()
+	}
+	pd := props[*fProp]
+	for _, it := range pd.Plan(*fTier) {
+		if it.Scn.Name != *fOne {
+			continue
+		}
+		var prefix []string
+		if *fPrefix != "" {
+			prefix = strings.Split(*fPrefix, ",")
+		}
+		r := RunOnce(t, it.Scn, prefix, true)
+		PrintTrace(os.Stdout, r)
+		if *fGrep != "" {
+			for i, a := range r.Alts {
+				fmt.Printf("point %d: %v\n", i, a)
+			}
+		}
+		vs, nt := Evaluate(*fProp, r)
+		fmt.Println("nontrivial:", nt, "diverged:", r.Diverged)
+		for _, v := range vs {
+			fmt.Printf("VIOL [%s] %s\n", v.Sig, v.Msg)
+		}
+		return
+	}
+	fmt.Println("scenario not found")
 }
